@@ -24,7 +24,7 @@ def convert(rec):
             if c["h"] not in names[e]:
                 return None
             d["h"] = names[e][c["h"]]
-        for k in ("c", "host", "port", "draws", "len", "max", "gr", "gs", "id", "data", "kind", "bt", "r", "accept", "b", "env", "d", "m"):
+        for k in ("c", "host", "port", "draws", "len", "max", "gr", "gs", "gf", "id", "data", "kind", "bt", "r", "accept", "b", "env", "d", "m"):
             if k in c:
                 d[k] = c[k]
         cmds.append(d)
